@@ -545,7 +545,7 @@ def r6(prog, ctx, markers):
     ctx.floor("R6", "state dumps before markers", n, 3)
 
 
-def r7(prog, ctx):
+def r7(prog, ctx, tag="R7", why=None):
     """A file that is opened in append mode by a stage must have been truncated by the object's constructor:
     a resumed stage recomputes from scratch and would otherwise append to left-overs."""
     n = 0
@@ -570,12 +570,12 @@ def r7(prog, ctx):
                                     and isinstance(x.args[1], ast.Constant) and "w" in str(x.args[1].value):
                                 trunc = True
                     if not trunc:
-                        ctx.fail("R7", call, "%s.%s" % (c.name, name), src(call),
-                                 "%s is opened in append mode but no constructor of %s truncates it: when --resume recomputes a "
-                                 "chromosome (or re-merges), rows are appended to the left-over file and appear twice" % (attr, c.name))
+                        ctx.fail(tag, call, "%s.%s" % (c.name, name), src(call),
+                                 "%s is opened in append mode but no constructor of %s truncates it: %s" % (attr, c.name, why or
+                                 "when --resume recomputes a chromosome (or re-merges), rows are appended to the left-over file and appear twice"))
                     else:
-                        ctx.ok("R7", "%s:%d" % (m.rel, call.lineno), "%s.%s appends to %s, truncated in the constructor" % (c.name, name, attr))
-    ctx.floor("R7", "append-mode opens of object-owned files", n, 2)
+                        ctx.ok(tag, "%s:%d" % (m.rel, call.lineno), "%s.%s appends to %s, truncated in the constructor" % (c.name, name, attr))
+    ctx.floor(tag, "append-mode opens of object-owned files", n, 2)
 
 
 def _trailing_literal(e):
